@@ -165,6 +165,45 @@ ExpectedOperation(p, m) ==
      success |-> ExpSuccess(m), errors |-> ExpErrors(m)]
 ExpectedOperations(p) == {ExpectedOperation(p, m) : m \in {x \in Range(p.methods) : IsApi(x) /\ ~x.hidden}}
 
+\* ---- C07 ------------------------------------------------------------------------
+Upper == {"A","B","C","D","E","F","G","H","I","J","K","L","M","N","O","P","Q","R","S","T","U","V","W","X","Y","Z"}
+Exported(n) == Len(n) > 0 /\ Ch(n, 1) \in Upper
+TagName(js) == LET parts == Split(js, ",") IN parts[1]                      \* json:"name,omitempty" -> name
+JsonVisible(f) == Exported(f.name) /\ TagName(f.json) # "-"
+JsonName(f) == IF f.json = "" \/ TagName(f.json) = "" THEN f.name ELSE TagName(f.json)
+TypeNamed(p, n) == CHOOSE t \in Range(p.types) : t.pkg \o "." \o t.name = n
+IsDeclared(p, n) == \E t \in Range(p.types) : t.pkg \o "." \o t.name = n
+
+\* the named (declared) type a type expression mentions, stripped of pointers, slices and string-keyed maps
+RECURSIVE CoreType(_)
+CoreType(t) == IF Len(t) > 0 /\ Ch(t, 1) = "*" THEN CoreType(SubSeq(t, 2, Len(t)))
+               ELSE IF Len(t) >= 2 /\ SubSeq(t, 1, 2) = "[]" /\ t # "[]byte" THEN CoreType(SubSeq(t, 3, Len(t)))
+               ELSE IF IsMap(t) THEN CoreType(SubSeq(t, 12, Len(t)))
+               ELSE t
+
+\* declared types a declaration refers to (fields incl. embedded ones; enum/alias refer to nothing declared)
+RefsOf(p, t) == IF t.kind = "struct" THEN {CoreType(f.type) : f \in Range(t.fields)} \cap {x.pkg \o "." \o x.name : x \in Range(p.types)} ELSE {}
+RootTypes(p) == UNION { {CoreType(s.type) : s \in Range(m.sig)} \cup {CoreType(r) : r \in Range(m.ret)} : m \in {x \in Range(p.methods) : IsApi(x)} }
+                  \cap {x.pkg \o "." \o x.name : x \in Range(p.types)}
+RECURSIVE ReachFrom(_, _)
+ReachFrom(p, S) == LET more == UNION {RefsOf(p, TypeNamed(p, n)) : n \in S} \ S IN IF more = {} THEN S ELSE ReachFrom(p, S \cup more)
+Reachable(p) == ReachFrom(p, RootTypes(p))
+
+PrimOf(b) == TypeSchema(b).t
+\* a type's schema is a function of its declaration alone
+SchemaOf(p, t) ==
+    CASE t.kind = "struct" ->
+            [k |-> "object",
+             props |-> { [name |-> JsonName(f), schema |-> TypeSchema(f.type)] : f \in {x \in Range(t.fields) : ~x.embed /\ JsonVisible(x)} },
+             required |-> { JsonName(f) : f \in {x \in Range(t.fields) : ~x.embed /\ JsonVisible(x) /\ "required" \in Rules(x.valid)} },
+             allOf |-> { BareName(CoreType(f.type)) : f \in {x \in Range(t.fields) : x.embed} }]
+      [] t.kind = "enum" -> [k |-> "enum", t |-> PrimOf(t.base), values |-> {c.value : c \in Range(t.consts)}]
+      [] OTHER -> [k |-> "alias", t |-> PrimOf(t.base)]
+PlainErrorPresent(p) == \E m \in Range(p.methods) : IsApi(m) /\ m.ret # <<>> /\ m.ret[Len(m.ret)] = "error"
+ExpectedComponents(p) == { [name |-> BareName(n), schema |-> SchemaOf(p, TypeNamed(p, n))] : n \in Reachable(p) }
+\* two reachable declarations sharing a bare name collapse into one component key (outside the property's bijection)
+NameClash(p) == \E a, b \in Reachable(p) : a # b /\ BareName(a) = BareName(b)
+
 \* ---- C10 ------------------------------------------------------------------------
 SeqToBag(s, x) == Cardinality({i \in DOMAIN s : s[i] = x})
 PathAnns(m)  == {i \in DOMAIN m.anns : m.anns[i].kind = "Path"}
